@@ -20,8 +20,10 @@ import ast
 
 from ..astutil import (text, access_path, calls_in, func_params, stmts_of, is_const, const_value, store_targets, method_call)
 from ..jobmodel import JobModel
+from ..astutil import enclosing_loops
 from ..loader import where, AnalysisError
 from ..paths import Enumerator
+from ..terms import Terms, PathEnv, fuse, alpha, canonical, self_effects_of
 
 
 def r1_r2(ctx, jm):
@@ -210,7 +212,7 @@ def r3_calc(ctx, repo):
     ok = False
     detail = "assignment of costs_signed not recognised"
     if len(asg) == 1:
-        v = asg[0].value
+        v = Terms(fn).expand(asg[0].value, at=asg[0])
         # list(map(lambda x, y: x * round(y, prec), signs, self.costs))  |  [s * round(c, prec) for s, c in zip(signs, self.costs)]
         lam = seqs = None
         if isinstance(v, ast.Call) and access_path(v.func) == "list" and v.args and isinstance(v.args[0], ast.Call) and access_path(v.args[0].func) == "map":
@@ -475,43 +477,69 @@ def r6_sweep(ctx, repo):
     fn = cls.methods.get("run")
     C = "SweepAlgorithm.run"
     selfn = func_params(fn)[0]
-    bad = None
-    n = 0
-    for p in Enumerator(loop_counts=(0, 1, 2)).function_paths(fn):
-        if p.outcome == "raise":
-            continue
-        n += 1
-        gen = [e for e in p.events if e.kind == "stmt" and any((access_path(c.func) or "").endswith(".generator.generate") for c in calls_in(e.node))]
-        evs = [e for e in p.events if e.kind == "stmt" and any((access_path(c.func) or "") in (selfn + ".evaluate", selfn + ".evaluator.evaluate") for c in calls_in(e.node))]
-        if len(gen) != 1 or len(evs) != 1:
-            bad = bad or (p, "generate() is called %d times and evaluate() %d times (expected once each)" % (len(gen), len(evs)))
-            continue
-        vecs = access_path(gen[0].node.targets[0]) if isinstance(gen[0].node, ast.Assign) else None
-        built = [e for e in p.events if e.kind == "stmt" and any(method_call(c) and method_call(c)[1] == "append" and c.args and isinstance(c.args[0], ast.Call)
-                                                                    and (access_path(c.args[0].func) or "").startswith("Individual") for c in calls_in(e.node))]
-        n_vec_iters = sum(1 for e in p.events if e.kind == "iter" and access_path(e.node.iter) == vecs)
-        if len(built) != n_vec_iters:
-            bad = bad or (p, "%d individuals built for %d generated vectors" % (len(built), n_vec_iters))
-        for e in built:
-            lp = [x for x in p.events if x.kind == "iter" and x.node.lineno <= e.node.lineno][-1].node
-            c = [c for c in calls_in(e.node) if method_call(c) and method_call(c)[1] == "append"][0]
-            if access_path(c.args[0].args[0]) != access_path(lp.target):
-                bad = bad or (p, "an individual is not built from its own generated vector")
-        rec = [e for e in p.events if e.kind == "stmt" and any((access_path(c.func) or "").endswith(".problem.individuals.append") for c in calls_in(e.node))]
-        # the list of built individuals has exactly one entry per generated vector (just shown), so a path that
-        # iterates that list a different number of times than it was filled is infeasible
-        lists = {access_path(method_call(c)[0]) for c in calls_in(fn) if method_call(c) and method_call(c)[1] == "append" and c.args
-                 and isinstance(c.args[0], ast.Call) and (access_path(c.args[0].func) or "").startswith("Individual")}
-        n_list_iters = sum(1 for e in p.events if e.kind == "iter" and access_path(e.node.iter) in lists)
-        separate_loop = any(isinstance(x, ast.For) and access_path(x.iter) in lists for x in stmts_of(fn))
-        if separate_loop and n_list_iters != len(built):
-            continue
-        if len(rec) != n_vec_iters:
-            bad = bad or (p, "%d designs recorded for %d generated vectors" % (len(rec), n_vec_iters))
-    if bad:
-        ctx.violated("R6", C, where(mod, fn), bad[1] + " (path [%s])" % bad[0].describe(6))
+    T = Terms(fn, self_effects=self_effects_of(repo, cls))
+    encl = enclosing_loops(fn)
+    all_stmts = stmts_of(fn)
+    simple = [s_ for s_ in all_stmts if not isinstance(s_, (ast.For, ast.While, ast.If, ast.Try, ast.With))]
+
+    def sites(pred):
+        """(statement, call, number of enclosing loops, under a condition) for every call matching pred"""
+        out = []
+        for s_ in all_stmts:
+            heads = [s_.iter] if isinstance(s_, ast.For) else ([s_.test] if isinstance(s_, (ast.While, ast.If)) else ([s_] if s_ in simple else []))
+            for h in heads:
+                for c in calls_in(h):
+                    if pred(c):
+                        out.append((s_, c, len(encl.get(id(s_), []))))
+        return out
+    gens = sites(lambda c: (access_path(c.func) or "").endswith(".generator.generate"))
+    evs = sites(lambda c: (access_path(c.func) or "") in (selfn + ".evaluate", selfn + ".evaluator.evaluate"))
+    conditional = [s_ for s_ in all_stmts if isinstance(s_, (ast.If, ast.Try, ast.While))]
+    problems, unknown = [], []
+    if len(gens) != 1 or len(evs) != 1 or gens[0][2] or evs[0][2]:
+        problems.append("generate() is called at %d site(s) and evaluate() at %d site(s) (expected once each, outside any loop)" % (len(gens), len(evs)))
+    if conditional:
+        unknown.append("conditional statements in the sweep (%s)" % type(conditional[0]).__name__)
+    built = None
+    if not problems:
+        est, ecall, _ = evs[0]
+        arg = ecall.args[0] if ecall.args else None
+        bt = alpha(fuse(T.expand(arg, at=est))) if arg is not None else None
+        if isinstance(bt, ast.ListComp) and len(bt.generators) == 1 and not bt.generators[0].ifs and isinstance(bt.elt, ast.Call) \
+                and (access_path(bt.elt.func) or "").startswith("Individual") and (access_path(bt.generators[0].iter.func) if isinstance(bt.generators[0].iter, ast.Call) else "" or "").endswith(".generator.generate"):
+            if len(bt.elt.args) == 1 and access_path(bt.elt.args[0]) == access_path(bt.generators[0].target):
+                built = access_path(arg)
+            else:
+                problems.append("an individual is not built from its own generated vector (%s)" % text(bt))
+        elif isinstance(bt, ast.ListComp) and bt.generators[0].ifs:
+            problems.append("not every generated vector becomes an individual (%s)" % text(bt))
+        else:
+            unknown.append("the evaluated batch %s is not recognised as one individual per generated vector" % (text(bt)[:100] if bt is not None else "?"))
+    if built is not None:
+        # recording: every built individual is appended to problem.individuals exactly once, in order
+        recs = []
+        for s_ in all_stmts:
+            if isinstance(s_, ast.For) and access_path(s_.iter) == built and isinstance(s_.target, ast.Name):
+                apps = [b for b in stmts_of(s_) if isinstance(b, ast.Expr) and method_call(b.value) and (access_path(b.value.func) or "").endswith(".problem.individuals.append")]
+                direct = [b for b in s_.body if b in apps]
+                if apps:
+                    recs.append((s_, len(apps), len(direct) == len(apps) and all(len(b.value.args) == 1 and access_path(b.value.args[0]) == s_.target.id for b in apps)))
+            elif s_ in simple and isinstance(s_, ast.Expr) and method_call(s_.value) and (access_path(s_.value.func) or "").endswith(".problem.individuals.extend") \
+                    and len(s_.value.args) == 1 and access_path(s_.value.args[0]) == built and not encl.get(id(s_)):
+                recs.append((s_, 1, True))
+        other = [s_ for s_ in simple if any((access_path(c.func) or "").endswith((".problem.individuals.append", ".problem.individuals.extend", ".problem.individuals.insert"))
+                                            for c in calls_in(s_)) and not any(s_ is r[0] or s_ in stmts_of(r[0]) for r in recs)]
+        n_rec = sum(r[1] for r in recs)
+        if other:
+            unknown.append("problem.individuals is also written by %s" % text(other[0]).strip()[:80])
+        elif n_rec != 1 or not all(r[2] for r in recs):
+            problems.append("each built individual is recorded %d time(s) in problem.individuals (expected exactly once, unconditionally)" % n_rec)
+    if problems:
+        ctx.violated("R6", C, where(mod, fn), "; ".join(problems))
+    elif unknown:
+        ctx.inconclusive("R6", C, where(mod, fn), "; ".join(unknown))
     else:
-        ctx.holds("R6", C, where(mod, fn), "one individual per generated vector, recorded in order, one evaluate of the batch (%d paths)" % n)
+        ctx.holds("R6", C, where(mod, fn), "one individual per generated vector, each recorded once in order, one evaluate of the batch")
 
 
 def run(ctx):
